@@ -37,7 +37,7 @@ CHECKS["C29"] = dict(
     entries=[
         dict(name="harness_c29_pairs", quick={}, thorough={"nmax": 40}),
         dict(name="harness_c29_subs", quick={}, thorough={"nmax": 40}),
-        dict(name="harness_c29_steps", quick={"nmax": 3}, thorough={"nmax": 40}),
+        dict(name="harness_c29_steps", quick={"nmax": 3, "tie_side": 1}, thorough={"nmax": 40}),
     ],
     anchors=["SymEngine::Le(", "SymEngine::Lt(", "SymEngine::Eq(", "SymEngine::Ne(", "SymEngine::Ge(", "SymEngine::Gt("],
     bounds="ordered pairs over {Integer |v|<=6 (40), Rational n/d |n|<=6 (40), d in {1,2,4} (and 3 against exact numbers), RealDouble: every non-NaN bit pattern incl. +-0, +-inf, +-oo}; the numeric relation is computed by an independent exact comparison in the harness",
@@ -105,13 +105,13 @@ CHECKS["C21"] = dict(
     entries=[
         dict(name="harness_c21_mul", quick={"nmax": 2, "B": 7, "nonneg": 1}, thorough={"nmax": 3, "B": 15, "nonneg": 0}),
         dict(name="harness_c21_linear", quick={"B": 1000}, thorough={"B": 1000000}),
-        dict(name="harness_c21_pow_div", quick={"B": 2}, thorough={"B": 6}),
-        dict(name="harness_c21_divides", quick={"B": 1}, thorough={"B": 3}),
-        dict(name="harness_c21_convert", quick={"B": 2}, thorough={"B": 12}),
+        dict(name="harness_c21_pow_div", quick={"B": 1, "kmax": 3, "enum2": 1}, thorough={"B": 3, "_wall": 2400}),
+        dict(name="harness_c21_divides", quick={"B": 1, "enum2": 1}, thorough={"B": 2, "_wall": 2400}),
+        dict(name="harness_c21_convert", quick={"B": 1, "enum2": 1}, thorough={"B": 4, "_wall": 2400}),
         dict(name="harness_c21_urat", quick={"B": 4}, thorough={"B": 10}),
     ],
     anchors=["SymEngine::UIntDict::mul", "SymEngine::UIntDict::eval_bit", "SymEngine::divides_upoly", "SymEngine::pow_upoly", "SymEngine::URatPoly"],
-    bounds="UIntPoly: all length pairs up to 3x3 terms with symbolic coefficients 0<=c<=7 (quick; thorough: -15..15 all signs and zeros) against the schoolbook convolution (Kronecker substitution is executed symbolically); add/sub/neg/eval/diff/eq on 3-term polynomials |c|<=1000; pow up to 3 and exact division (p*q)/q on 2-term polynomials; from_basic/as_symbolic round trip; URatPoly products and sums with denominators 1..3",
+    bounds="UIntPoly: all length pairs up to 3x3 terms with symbolic coefficients 0<=c<=7 (quick; thorough: -15..15 all signs and zeros) against the schoolbook convolution (Kronecker substitution is executed symbolically); add/sub/neg/eval/diff/eq on 3-term polynomials |c|<=1000; pow up to 2 (thorough 3) and exact division (p*q)/q on 2-term polynomials with coefficients |c|<=1 (3), exact division by 3-term divisors |c|<=1 (2) incl. cancelling products (quick tier: the second operand and the leading coefficient are enumerated as paths, the first operand is symbolic); from_basic/as_symbolic round trip; URatPoly products and sums with denominators 1..3",
     outside=["more than 3 terms", "UExprPoly", "multi-limb coefficients"],
 )
 
@@ -145,10 +145,12 @@ CHECKS["C32"] = dict(
         dict(name="harness_c32_crt", quick={}, thorough={}),
         dict(name="harness_c32_multiplicative", quick={"N": 24}, thorough={"N": 60}),
         dict(name="harness_c32_symbols", quick={"N": 9}, thorough={"N": 35}),
-        dict(name="harness_c32_sequences", quick={"nseq": 10}, thorough={"nseq": 90}),
+        dict(name="harness_c32_sequences", quick={"nseq": 30}, thorough={"nseq": 90}),
+        dict(name="harness_c32_binomial", quick={}, thorough={}),
+        dict(name="harness_c32_primes", quick={"vmax": 200}, thorough={"vmax": 1000}),
     ],
     anchors=["SymEngine::gcd_ext", "SymEngine::quotient_mod_f", "SymEngine::mod_inverse", "SymEngine::crt", "SymEngine::nthroot_mod_list", "SymEngine::totient", "SymEngine::carmichael", "SymEngine::primitive_root", "SymEngine::jacobi", "SymEngine::kronecker", "SymEngine::fibonacci", "SymEngine::binomial", "SymEngine::nextprime", "SymEngine::mobius"],
-    bounds="gcd/lcm/gcd_ext |a|,|b|<=10 (30) with a symbolic common-divisor candidate; quotient/mod both conventions |n|<=1000 (1e6) symbolic, 0<|d|<=12; mod_inverse, nthroot_mod(_list) (n<=4), is_nth_residue for m<=10 (24); crt with two moduli <=9; totient, carmichael, mobius, prime factors, multiplicative_order, primitive_root for n<=24 (60); Legendre/Jacobi/Kronecker, quadratic residues for n<=15 (35); Fibonacci/Lucas/factorial recurrences n<=31 (91), Pascal's rule incl. negative tops, nextprime/probab_prime_p up to 200; definitions evaluated by brute force in the harness",
+    bounds="gcd/lcm/gcd_ext |a|,|b|<=10 (30) with a symbolic common-divisor candidate; quotient/mod both conventions |n|<=1000 (1e6) symbolic, 0<|d|<=12; mod_inverse, nthroot_mod(_list) (n<=4), is_nth_residue for m<=10 (24); crt with two moduli <=9; totient, carmichael, mobius, prime factors, multiplicative_order, primitive_root for n<=24 (60); Legendre/Jacobi/Kronecker, quadratic residues for n<=15 (35); Fibonacci/Lucas/factorial recurrences n<=31 (91), Pascal's rule for tops -6..20 and k<=8 incl. negative tops, nextprime/probab_prime_p up to 200 (1000); definitions evaluated by brute force in the harness",
     outside=["bernoulli, harmonic, factor_* heuristics (pollard, lehman), polygonal numbers, perfect-power decomposition, primepi, primorial, mertens", "large arguments"],
 )
 
